@@ -28,8 +28,10 @@ async def timing_server(rtsp: RtspSession):
     (_, server) = await asyncio.get_event_loop().create_datagram_endpoint(
         TimingServer, local_addr=local_addr
     )
-    yield server
-    server.close()
+    try:
+        yield server
+    finally:
+        server.close()
 
 
 # pylint: disable=too-few-public-methods
